@@ -31,9 +31,15 @@ from pdpy11 import bk_encoding as bk
 D, E = bk.DECODING_TABLE, bk.ENCODING_TABLE
 res = {}
 res["n_dec"] = len(D)
-res["roundtrip_bad"] = [b for b in range(256) if bytes([b]).decode("bk").encode("bk") != bytes([b])][:5]
-res["ascii_bad"] = [b for b in range(0x7f) if bytes([b]).decode("bk") != bytes([b]).decode("ascii")][:5]
-res["koi8_bad"] = [b for b in range(0xc0, 0x100) if bytes([b]).decode("bk") != bytes([b]).decode("koi8_r")][:5]
+def guarded(f, *a):
+    # a mutated codec may raise where the real one does not: that is a fact to report, not a reason for this script to die
+    try:
+        return f(*a)
+    except Exception as e:
+        return "raised " + type(e).__name__
+res["roundtrip_bad"] = [b for b in range(256) if guarded(lambda b: bytes([b]).decode("bk").encode("bk"), b) != bytes([b])][:5]
+res["ascii_bad"] = [b for b in range(0x7f) if guarded(lambda b: bytes([b]).decode("bk"), b) != bytes([b]).decode("ascii")][:5]
+res["koi8_bad"] = [b for b in range(0xc0, 0x100) if guarded(lambda b: bytes([b]).decode("bk"), b) != bytes([b]).decode("koi8_r")][:5]
 inv = {}
 dup = []
 for i, chars in enumerate(D):
@@ -43,7 +49,7 @@ for i, chars in enumerate(D):
 res["inverse_ok"] = inv == E and not dup
 res["values_in_range"] = all(isinstance(v, int) and 0 <= v < 256 for v in E.values())
 res["entries_nonempty"] = all(isinstance(c, str) and len(c) >= 1 for c in D)
-res["decode_is_first_char"] = all(bytes([b]).decode("bk") == D[b][0] for b in range(256))
+res["decode_is_first_char"] = all(guarded(lambda b: bytes([b]).decode("bk"), b) == D[b][0] for b in range(256))
 bad = []
 n_ok = 0
 for cp in range(0x110000):
@@ -54,6 +60,9 @@ for cp in range(0x110000):
     except UnicodeEncodeError as ex:
         ok = False
         if (ex.start, ex.end, ex.encoding) != (0, 1, "bk"): bad.append(["pos", cp])
+    except Exception as ex:
+        ok = False
+        bad.append(["raised " + type(ex).__name__, cp])
     if ok != (ch in E): bad.append(["membership", cp])
     if ok:
         n_ok += 1
